@@ -60,7 +60,7 @@ META = {
                 text="For every scenario of a fixed catalogue and every index k of an allocation made through coap_malloc_type/coap_realloc_type, exactly the k-th allocation fails; no crash, no invalid access, no leak (LSan + per-tag counters), ownership rules hold, and a follow-up canary exchange with memory available succeeds.",
                 note="Only allocations through libcoap's funnel; GnuTLS/uthash raw malloc outside."),
     "C19": dict(engine="vx-netsim", technique="deviation-bounded exhaustive schedule exploration of real DTLS (GnuTLS) client and server over the simulated network, credential product",
-                text="Real GnuTLS-backed DTLS client and server contexts over the simulated network with a virtual clock: product of client identity/key x server key table configurations, loss/duplication/reorder of handshake and record datagrams within a deviation bound, injected cleartext CoAP; handlers run only after a handshake with matching credentials, nothing queued leaves in clear, each queued CON gets exactly one NACK on failure, queued messages are delivered in order exactly once on success.",
+                text="Real GnuTLS-backed DTLS client and server contexts over the simulated network with a virtual clock: product of client identity/key x server key table configurations, loss/duplication/reorder of handshake and record datagrams within a deviation bound, injected cleartext CoAP; handlers run only after a handshake with matching credentials, nothing queued leaves in clear, each queued CON gets exactly one NACK on failure, queued messages are delivered in order exactly once on success. The product is repeated with a client context in COAP_BLOCK_USE_LIBCOAP mode whose last queued Confirmable registers an observation.",
                 note="PSK only, GnuTLS only; DTLS under loss/duplication/reordering, TLS (over the simulated TCP stream) for the credential product without faults; includes a server choosing the key by SNI with a filled SNI cache, servers without identity hint, survival of the loss of the first handshake flight."),
     "C20": dict(engine="vx-inproc", technique="exhaustive enumeration of resource tables x filters x all (offset, buffer length) windows against an RFC 6690 reference; exhaustive block-wise GET over the simulated network for tables x filters x Block2 sizes, differential against the in-process listing",
                 text="All subsets (<=3/4) of a catalogue of resource shapes x 15 filters x every (offset, buflen) window up to the listing length + 2 through coap_print_wellknown / coap_print_link; the full listing must equal the reference RFC 6690 listing as a set of links, every window must be exactly that slice with exact total length and truncation flag, nothing written outside the buffer.",
